@@ -45,14 +45,25 @@ def vv_aggs(row):
     """VersionedValue literals stored on this path (assigned through a reference or handed to an
     insert call)"""
     out = []
+
+    def whole(v):
+        """a whole symbolic VersionedValue moved into the map (`*slot = update` / `vacant.insert(update)` without a clone) is the
+        literal made of its own fields"""
+        if v[0] == "obj" and v[1][0] == "S":
+            return ("agg", VV, "VersionedValue", tuple((n, ("proj", v, F(VV, n))) for n in ("value", "version", "status")))
+        return None
     for e in row.events:
         if e[0] == "write" and e[3][0] == "agg" and e[3][1] == VV:
             out.append(("assign", e[3], e))
+        elif e[0] == "write" and e[2] == () and whole(e[3]) and e[1][0] == "D":
+            out.append(("assign", whole(e[3]), e))
         elif e[0] == "call" and (sym.strip_all_generics(e[1]).endswith("VacantEntry::insert")
                                   or sym.strip_all_generics(e[1]).endswith("BTreeMap::insert")):
-            for a in e[2]:
+            for a in e[2][1:]:
                 if a[0] == "agg" and a[1] == VV:
                     out.append(("insert", a, e))
+                elif whole(a) and a[1] == ("S", "upd"):
+                    out.append(("insert", whole(a), e))
     return out
 
 
